@@ -480,15 +480,26 @@ def gen_jobs(ctx):
         prods, text = r
         li = rng.choice([0, 1, 1, 2, 3])
         specs.append(("rand%d+L%d" % (i, li), text, LAYOUTS[li], prods))
+    # lexically ambiguous terminals (several tokens of different length at one position): GLR pursues all of
+    # them unless lexical disambiguation is on -- an option that must stay what the constructor was given
+    for i in range(12 if quick else 200):
+        r = gramgen.lexlen_grammar(rng) if i % 2 else gramgen.lexamb_grammar(rng)
+        if r is not None:
+            specs.append(("lex%d+L0" % i, r[1], LAYOUTS[0], None))
     maxh = 6 if quick else 10
     for name, text, lay, prods in specs:
         gtext = text + ("\n" + lay if lay else "")
         alpha = gramgen.alphabet_of(text) or ["a"]
         sents = []
-        for _ in range(10):
-            s = gramgen.random_sentence(rng, prods, max_depth=5, max_len=8)
-            if s is not None:
-                sents.append(s)
+        if prods is None:
+            sents = [w for w in gramgen.all_strings(["a", "b"], 4) if w]
+            rng.shuffle(sents)
+            sents = sents[:10]
+        else:
+            for _ in range(10):
+                s = gramgen.random_sentence(rng, prods, max_depth=5, max_len=8)
+                if s is not None:
+                    sents.append(s)
         sents = sents or [""]
         shorts = list(gramgen.all_strings(alpha[:3], 2))
 
